@@ -43,10 +43,92 @@ BOUNDS = dict(quick='shapes %s, T<=8 (12 for the colliding-names shape)' % [c[0]
 OUTSIDE = ['SLP problems (their mapping is checked in C17)']
 
 
+# periodic assets: the mapping of the merged problem against the mapping of the same asset WITHOUT periodicity -- the rows of a merged
+# variable are exactly the rows of the variables it stands for (groups of equal period position recomputed by the harness, c13.structure)
+PERIODIC = [
+    ('periodic_map_contract', dict(kind='contract', T=4)),
+    ('periodic_map_transport_T6', dict(kind='transport', T=6, eff=0.5)),
+    ('periodic_map_transport_dur', dict(kind='transport', T=8, eff=0.5, duration='4h')),
+    ('periodic_map_storage', dict(kind='storage', T=4, eff=0.75)),
+    ('periodic_map_multicommodity', dict(kind='multicommodity', T=6)),
+]
+
+
+def periodic_rows(po, tg, opo, opf, period, duration):
+    """None, or what is wrong with the mapping of the periodic problem opo against the mapping of the non-periodic problem opf"""
+    from . import c13
+    a_opt = [a for a in po.assets if a.name == 'as'][0]
+    groups = c13.structure(tg, a_opt, 'periodic', None, period, duration)
+    group_of = {t: gi for gi, g in enumerate(groups) for t in g}
+    cols = ['asset', 'node', 'type', 'var_name', 'time_step']
+    rows_o, rows_f = _rows_of(opo.mapping, cols), _rows_of(opf.mapping, cols)
+    norm = lambda r: (str(r[0]), r[1] if isinstance(r[1], str) else '', r[2], str(r[3]), int(r[4]))
+    # fine variable -> (asset, var_name, node of first row, group) ; merged variable identified the same way
+    def ident(rows):
+        r0 = norm(rows[0])
+        return (r0[0], r0[3], r0[1], group_of.get(r0[4]) if r0[0] == 'as' else ('t', r0[4]))
+    want = {}
+    for i, rows in rows_f.items():
+        want.setdefault(ident(rows), []).extend(norm(r) for r in rows)
+    got = {}
+    bad = None
+    for i, rows in rows_o.items():
+        k_ = ident(rows)
+        if k_ in got:
+            bad = dict(why='two variables of the periodic problem stand for the same group', key=str(k_))
+        got[k_] = sorted(norm(r) for r in rows)
+    if bad is None and set(got) != set(want):
+        bad = dict(why='variables differ', missing=[str(k_) for k_ in set(want) - set(got)][:3], extra=[str(k_) for k_ in set(got) - set(want)][:3])
+    if bad is None:
+        for k_ in want:
+            if sorted(want[k_]) != got[k_]:
+                bad = dict(why='rows of a merged variable are not the rows of the variables it stands for', key=str(k_), want=sorted(want[k_])[:4], got=got[k_][:4])
+                break
+    return bad
+
+
+def run_periodic(rec, seed, kind, T, **kw):
+    from . import c13
+    from .. import embed_lp
+    period = kw.get('period', '2h'); duration = kw.get('duration')
+
+    def build(D):
+        po, pfine, tg, prices = c13.build_pair(D, 'periodic', kind, T, **kw)
+        return po, tg, po.setup_optim_problem(prices, tg), pfine.setup_optim_problem(prices, tg)
+    res = lift.explore_build(build, level='A')
+    rec.paths = len(res)
+    validated = False
+    for pi, (path, D) in enumerate(res):
+        P = 'p%d' % pi
+        if path.exc is not None:
+            if common.is_rejection(path.exc):
+                rec.rejected_paths += 1
+                continue
+            common.crash_candidate(rec, P + '/crash', path, D)
+            continue
+        po, tg, opo, opf = path.result
+        base = list(D.pre) + path.pc + sym.atom_constraints()
+        if rec.vacuity(P, base) is None:
+            continue
+        env_pt = common.generic_point(base, D.names, seed) or {}
+        structural(rec, P + '/portfolio', opo, tg.T, env_pt)
+        bad = periodic_rows(po, tg, opo, opf, period, duration)
+        if bad:
+            bad.update(kind='periodic_rows', env=env_pt)
+            _fail(rec, P + '/periodic_rows', bad)
+        else:
+            _ok(rec, P + '/periodic_rows')
+    rec.twins_ok += 1
+    return rec.result()
+
+
 def cases(tier, seed):
     lst = THOROUGH if tier == 'thorough' else QUICK
     lst = lst + c01.grid_variants(lst, tier, SHAPE_OF, GRIDV_QUICK)
-    return [(cid, dict(shape=SHAPE_OF.get(cid.split('@')[0], cid.split('@')[0]), kw=dict(kw), split=split, level=level)) for cid, kw, split, level in lst]
+    out = [(cid, dict(shape=SHAPE_OF.get(cid.split('@')[0], cid.split('@')[0]), kw=dict(kw), split=split, level=level)) for cid, kw, split, level in lst]
+    for cid, kw in PERIODIC:
+        out.append((cid, dict(shape='-', kw=dict(kw), split=None, level='periodic')))
+    return out
 
 
 def _fail(rec, name, info):
@@ -128,6 +210,8 @@ def run_split(rec, seed, shape, kw, split, level):
 
 def run_case(case_id, tier, seed, shape, kw, split, level):
     rec = lpsem.Rec(PROP, case_id)
+    if level == 'periodic':
+        return run_periodic(rec, seed, **kw)
     if split is not None:
         return run_split(rec, seed, shape, kw, split, level)
     res = scen.explore(shape, kw, split=None, level=level, with_output=False)
@@ -268,6 +352,15 @@ def run_case(case_id, tier, seed, shape, kw, split, level):
 
 
 def observe(case, kwargs, env, rq):
+    if kwargs.get('level') == 'periodic':
+        from . import c13
+        from .. import obs as _obs
+        D = lift.Domain(theta=env)
+        kw = dict(kwargs['kw']); kind = kw.pop('kind'); T = kw.pop('T')
+        po, pfine, tg, prices = c13.build_pair(D, 'periodic', kind, T, **kw)
+        opo, opf = po.setup_optim_problem(prices, tg), pfine.setup_optim_problem(prices, tg)
+        bad = periodic_rows(po, tg, opo, opf, kw.get('period', '2h'), kw.get('duration'))
+        return dict(problem=_obs.problem_obs(opo), periodic_rows=None if bad is None else {k: str(v) for k, v in bad.items()})
     if kwargs.get('split') is not None:
         from . import c14
         return c14.observe(case, dict(kwargs, coupled=False), env, rq)
@@ -292,6 +385,9 @@ def judge(case, kwargs, cand, ans):
     if info.get('kind') == 'mapping':
         from . import c14
         return c14.judge(case, kwargs, cand, ans)
+    if info.get('kind') == 'periodic_rows':
+        b = ans['obs'].get('periodic_rows')
+        return (True, 'mapping of the periodic problem: %s' % b) if b else (False, 'mapping rows of the periodic problem are right on the unshimmed code')
     o = ans['obs']
     p = o['problem']
     n = len(p['c'])
